@@ -355,17 +355,19 @@ def check_lifespan(case, ctx=None):
     def mk(kind, name):
         if kind == 'none':
             return None
-        if kind in ('sync', 'sync-raise'):
+        exc = asyncio.CancelledError if 'cancel' in kind else SystemExit if 'exit' in kind \
+            else RuntimeError       # (what `await cancelled_task` / sys.exit() raise)
+        if kind.startswith('sync'):
             def cb():
                 calls.append(name)
                 if kind.endswith('raise'):
-                    raise RuntimeError('scripted')
+                    raise exc('scripted')
             return cb
 
         async def acb():
             calls.append(name)
             if kind.endswith('raise'):
-                raise RuntimeError('scripted')
+                raise exc('scripted')
         return acb
     app = engineio.ASGIApp(StubAsgiEngine(), other_asgi_app=stub_asgi_app if wrapped else None,
                            on_startup=mk(start_cb, 'startup'), on_shutdown=mk(stop_cb, 'shutdown'))
@@ -388,7 +390,9 @@ def check_lifespan(case, ctx=None):
             return 'waiting'
     try:
         end = loop().run_until_complete(run())
-    except Exception as e:      # noqa
+    except KeyboardInterrupt:
+        raise
+    except BaseException as e:      # noqa
         raise V('asgi', 'lifespan-raised', type(e).__name__, 'lifespan raised %r' % (e,), rep)
     # expected
     if wrapped and start_cb == 'none' and stop_cb == 'none':
@@ -411,7 +415,8 @@ def check_lifespan(case, ctx=None):
         ctx.case(rep, 'raise' in start_cb + stop_cb, ['lifespan', 'lifespan-end-' + end])
 
 
-CB = ['none', 'sync', 'async', 'sync-raise', 'async-raise']
+CB = ['none', 'sync', 'async', 'sync-raise', 'async-raise', 'async-cancel-raise',
+      'sync-exit-raise']
 EVS = [['startup', 'shutdown'], ['startup'], ['shutdown'], ['startup', 'startup', 'shutdown']]
 
 
